@@ -4,7 +4,7 @@ import json, os
 V = "/verif"
 CHECKS = {
  "C14": dict(cat="exploration",
-   text="round-trip oracle over generated datasets (valid http/https/urn/mailto IRIs, blank nodes, quoted triples nested once, arbitrary Unicode literals that cannot be mistaken for another term kind: quotes, backslashes, newlines, controls, U+2028, combining and astral characters, empty string, edge whitespace): generate_nquads -> parse_nquads_and_add (all graphs), generate_ntriples -> parse_ntriples_and_add and generate_turtle -> parse_turtle (default graph) into an empty database must reproduce the lexical quads; failures are attributed to c14.<format>.<class> by isolating round trips; 20 000 datasets quick, 1 M + a libFuzzer campaign of the same oracle (byte-decoded datasets) thorough, saved corpus replayed on the stable build every run",
+   text="round-trip oracle over generated datasets (valid http/https/urn/mailto IRIs, blank nodes, quoted triples nested once, arbitrary Unicode literals that cannot be mistaken for another term kind: quotes, backslashes, newlines, controls, U+2028, combining and astral characters, empty string, edge whitespace, long values with a special character on the 1 KiB / 4 KiB / 8 KiB boundary): generate_nquads -> parse_nquads_and_add (all graphs), generate_ntriples -> parse_ntriples_and_add and generate_turtle -> parse_turtle (default graph) into an empty database must reproduce the lexical quads; failures are attributed to c14.<format>.<class> by isolating round trips; 20 000 datasets quick, 1 M + a libFuzzer campaign of the same oracle (byte-decoded datasets) thorough, saved corpus replayed on the stable build every run",
    note="trusted: lexical identity of terms as stored by Dictionary::encode / rendered by decode_any; term kinds share one lexical space (an IRI exported as a string literal is indistinguishable after re-import); blank-node labels compared literally; the loader is re-checked on every case",
    tech="round-trip property-based testing (proptest) + coverage-guided fuzzing (libFuzzer, arbitrary-decoded datasets) with the oracle in the target"),
 
@@ -24,7 +24,7 @@ CHECKS = {
    tech="property-based differential testing (proptest) + bounded enumeration against a least-fixpoint oracle; metamorphic renaming relation"),
 
  "C11": dict(cat="exploration",
-   text="engines built through RSPBuilder from generated RSP-QL text with 2-3 windows on distinct streams, per-window blocks over a shared vocabulary, optional static patterns/data, policies Wait/Steal/Timeout, single- and multi-thread mode; one probe window per configured window records every content that window reported; every emitted row restricted to the variables of block k must be a reference-BGP answer of block k over SOME content window k reported so far, and its static part an answer of the static patterns over the static data alone; parts: shared-vocabulary blocks, blocks joining on 2-3 variables over confusable value tuples, and histories built so that a block could be answered by mixing two reports of its own window",
+   text="engines built through RSPBuilder from generated RSP-QL text with 2-3 windows on distinct streams, per-window blocks over a shared vocabulary, 0-2 static patterns (joining a window variable or sharing none) with static data, policies Wait/Steal/Timeout, single- and multi-thread mode; one probe window per configured window records every content that window reported; every emitted row restricted to the variables of block k must be a reference-BGP answer of block k over SOME content window k reported so far, and its static part an answer of the static patterns over the static data alone; parts: shared-vocabulary blocks, blocks joining on 2-3 variables over confusable value tuples, and histories built so that a block could be answered by mixing two reports of its own window",
    note="trusted: probe windows and the reference BGP evaluator; the oracle is existential over past firings of the same window, hence sound for every synchronisation policy (it does not decide WHICH content must be used); multi-thread runs only perturb, they do not enumerate schedules; known finding C11-F1 (one shared store for all windows) covers only rows that are answers over ONE report of the window plus items other windows reported; a row needing two reports of the same window has its own signature",
    tech="model-based property testing (proptest) with probe windows and a per-block explanation oracle"),
 
@@ -38,16 +38,16 @@ CHECKS = {
    tech="model-based property testing (proptest) with seeded schedule perturbation through a cfg-guarded hook"),
 
  "C01": dict(cat="exploration",
-   text="differential testing against an independent reference evaluator: generated (dataset, SELECT text) pairs over default+named graphs (empty graphs, same triple in several graphs) and a recursive query grammar (BGP, nested groups, UNION, GRAPH <iri>/?g, group-scoped FILTER, BIND, VALUES/UNDEF, sub-SELECT with modifiers, FROM/FROM NAMED, GROUP BY aggregates, DISTINCT/ORDER BY/LIMIT) run through execute_sparql_query (and the legacy volcano entry point); rows compared as multisets, sortedness under ORDER BY, legal-cut predicate under LIMIT; extra parts for ORDER BY over mixed-kind keys and for DISTINCT/GROUP BY over composite keys whose value tuples are easy to confuse (prefix-related IRIs, literals whose concatenations coincide); VALUES blocks repeat rows; a quarter of the cases run the query again on the used database",
+   text="differential testing against an independent reference evaluator: generated (dataset, SELECT text) pairs over default+named graphs (empty graphs, same triple in several graphs) and a recursive query grammar (BGP, nested groups, UNION, GRAPH <iri>/?g, group-scoped FILTER, BIND, VALUES/UNDEF, sub-SELECT with modifiers, FROM/FROM NAMED, GROUP BY aggregates, DISTINCT/ORDER BY/LIMIT) run through execute_sparql_query (and the legacy volcano entry point); rows compared as multisets, sortedness under ORDER BY, legal-cut predicate under LIMIT; extra parts for ORDER BY over mixed-kind keys and for DISTINCT/GROUP BY over composite keys whose value tuples are easy to confuse (prefix-related IRIs, literals whose concatenations coincide); VALUES blocks repeat rows; a quarter of the cases run the query again on the used database; GRAPH ?g blocks that use ?g as a term over data about named graphs; nested and top-level ORDER BY on variables that are not projected (hidden-key judgement)",
    note="trusted: the nested-loop SPARQL 1.1 algebra evaluator in harness/src/sparql.rs (written from the spec, no engine code) and the supported-fragment restrictions a-f of DESIGN C01 enforced by construction; SELECT * column order = first syntactic appearance; sizes bounded (<=40 default triples, depth <=3)",
    tech="property-based differential testing (proptest): grammar-based query generation + reference SPARQL algebra oracle"),
  "C02": dict(cat="exploration",
-   text="metamorphic + differential testing of the planning pipeline driven through its public pieces: per generated query the baseline (source order, fresh stats, chosen plan, 1 thread) must equal the reference evaluator, and every variant - permuted BGPs, empty/stale/adversarial statistics, every assignment of bind/hash/nested-loop to the join nodes of the chosen plan (all 3^j for j<=3, else sampled), scan-strategy flips, rayon pools of 2/3/8/16 threads (thorough: every size 2..16), and a stale cached-statistics end-to-end scenario - must equal the baseline",
+   text="metamorphic + differential testing of the planning pipeline driven through its public pieces: per generated query the baseline (source order, fresh stats, chosen plan, 1 thread) must equal the reference evaluator, and every variant - permuted BGPs, empty/stale/adversarial statistics, every assignment of bind/hash/nested-loop to the join nodes of the chosen plan (all 3^j for j<=3, else sampled), scan-strategy flips, rayon pools of 2/3/8/16 threads (thorough: every size 2..16), and a stale cached-statistics end-to-end scenario - must equal the baseline; a second part runs the same variants over GRAPH ?g joins whose patterns use the graph variable as a term",
    note="trusted: reference evaluator of C01; fragment restriction (a) (the condition under which the three join algorithms are specified to agree); thread schedules only perturbed through pool sizes; join-node rewriting assumes the optimizer considers all three algorithms for every join (it does: find_best_plan_recursive)",
    tech="metamorphic property-based testing (proptest) with plan rewriting + reference SPARQL algebra oracle"),
  "C03": dict(cat="exploration",
-   text="model-based histories: generated initial dataset followed by 1-14 (quick) / 1-25 (thorough) update requests of the six supported forms (self-referential templates, GRAPH ?g templates, blank-node templates, literal-in-subject/predicate/graph instantiations, unbound template variables) interleaved with requests that must be rejected; after every step the complete lexical dataset and graph catalog must equal reference SPARQL Update semantics (WHERE once on the pre-state, delete-then-insert, per-solution fresh blank nodes up to injective renaming), UpdateSummary must equal the number of changed quads, a rejected request changes nothing",
-   note="trusted: reference step semantics in harness/src/update.rs on top of the C01 evaluator; term kinds lexically decidable in the generated universe; catalog life-cycle as in C04",
+   text="model-based histories: generated initial dataset followed by 1-14 (quick) / 1-25 (thorough) update requests of the six supported forms (self-referential templates, GRAPH ?g templates, blank-node templates, literal-in-subject/predicate/graph instantiations, unbound template variables, ground multi-quad DELETE WHERE blocks with absent quads, scheme-less IRIs as subjects) interleaved with requests that must be rejected; after every step the complete lexical dataset and graph catalog must equal reference SPARQL Update semantics (WHERE once on the pre-state, delete-then-insert, per-solution fresh blank nodes up to injective renaming), UpdateSummary must equal the number of changed quads, a rejected request changes nothing",
+   note="trusted: reference step semantics in harness/src/update.rs on top of the C01 evaluator; term kinds lexically decidable in the generated universe except for the scheme-less IRIs <rel0>/<rel1>, which count as IRIs where the pre-operation dataset already has them as subjects and leave the step unjudged otherwise; catalog life-cycle as in C04",
    tech="model-based property testing (proptest) of update histories against a reference SPARQL Update model"),
  "C05": dict(cat="exploration",
    text="generated Datalog programs over triples (1-4 premises, constants, repeated variables, variable predicates, multi-conclusion, numeric filters, recursion, one stratum of safe negation) x 4 strategies (naive, semi-naive, parallel, Boolean-provenance) x 2 insertion orders; store == facts + least model (both directions), returned vector == new facts without duplicates, second run derives nothing, unsafe negated rules rejected",
@@ -62,7 +62,7 @@ CHECKS = {
    note="trusted: bit-level Boolean-function oracle sharing nothing with sdd.rs; group WMC compared only on h AND exactly_one(G) for all registered groups; same result = same handle on the same manager + same canonical structure on the twin manager; <=8 variables, <=80 operations, one interrupted operation per history",
    tech="model-based property testing (proptest) + bounded exhaustive enumeration + exhaustive interruption-point enumeration through the injectable budget callback"),
  "C17": dict(cat="exploration",
-   text="generated and mutated request strings (SELECTs, all six update forms, legacy aliases, RULE/REGISTER texts, garbage; multi-byte insertion, delimiter insertion, deletion, token duplication, truncation) x generated datasets x every string entry point incl. HTTP adapters; lexical snapshot (quads + catalog) unchanged around every query-path call and every Err, Err for everything the parser rejects and for update syntax on the query path, Ok for well-formed SELECTs, no panic; plus an exhaustive sweep of every char-boundary offset of 20 corpus requests x 6 multi-byte characters; thorough: 6 parallel libFuzzer jobs x 60 000 executions of the same oracle (target request_total), crash files re-judged on the stable build",
+   text="generated and mutated request strings (SELECTs, all six update forms, legacy aliases, RULE/REGISTER texts, requests with an extension clause (RULE / RETRIEVE) in front of their SELECT or update operation, numeric escapes in every place an IRI is lexed, garbage; multi-byte insertion, delimiter insertion, deletion, token duplication, truncation) x generated datasets x every string entry point incl. HTTP adapters; lexical snapshot (quads + catalog) unchanged around every query-path call and every Err, Err for everything the parser rejects and for update syntax on the query path, Ok for well-formed SELECTs, no panic; plus an exhaustive sweep of every char-boundary offset of 20 corpus requests x 6 multi-byte characters; thorough: 6 parallel libFuzzer jobs x 60 000 executions of the same oracle (target request_total), crash files re-judged on the stable build",
    note="trusted: parse_combined_query as the classifier of what is an update / malformed; snapshot through all_quads + named_graphs; TRAIN/ML execution requests are not generated",
    tech="property-based testing with string mutation (proptest) + exhaustive offset sweep + coverage-guided fuzzing (libFuzzer) with the snapshot-equality oracle in the target"),
  "C19": dict(cat="exploration",
@@ -80,8 +80,8 @@ CHECKS = {
    note="trusted: independent string-level widest-path least-model oracle; alive convention t+alpha>now as documented by the repo tests; prefix-free component IRIs; rules positive, range-restricted, constant predicates, no filters (join-engine corner cases are C05's); sizes bounded",
    tech="model-based property testing (proptest) against an independent widest-path Datalog oracle"),
  "C15": dict(cat="exploration",
-   text="model-based property testing: <=300-op encode/decode histories at three API levels (Dictionary, QuotedTripleStore, SparqlDatabase) against an id-level model with all issued ids re-decoded after every operation; independently built database pairs with clashing ids whose union (both directions) is decoded to a lexical dataset and compared with the union of the models on quads, graph identities incl. empty graphs, probability seeds and quoted terms; operand immutability and result bijection",
-   note="trusted: canonical << s p o >> surface syntax and the documented term normalisation are input convention; Dictionary::merge only exercised on id-compatible dictionaries; seed probability is a function of the lexical triple; id-space exhaustion not attempted",
+   text="model-based property testing: <=300-op encode/decode histories at three API levels (Dictionary, QuotedTripleStore, SparqlDatabase) against an id-level model with all issued ids re-decoded after every operation; independently built database pairs with clashing ids whose union (both directions) is decoded to a lexical dataset and compared with the union of the models on quads, graph identities incl. empty graphs, probability seeds and quoted terms; operand immutability and result bijection; the pool of terms includes long terms (1 KiB .. 4 KiB); a boundary part places the dictionary's public counter just below the first quoted identifier and encodes across it (identifiers handed out must be plain, new, decodable and stable; the documented \"ID space exhausted\" refusal is accepted)",
+   note="trusted: canonical << s p o >> surface syntax and the documented term normalisation are input convention; Dictionary::merge only exercised on id-compatible dictionaries; seed probability is a function of the lexical triple",
    tech="model-based property testing (proptest): reference maps for the bijection, lexical-dataset oracle for union"),
 
  "C04": dict(cat="exploration",
